@@ -512,6 +512,14 @@ public:
     double alpha;
     double range = t_end - t_start;
 #include "SU_inc/PreEvolutionSelectAvgRange.txt"
+    //For coincident levels alpha vanishes and the expressions above evaluate
+    //0/0; the interval averages of cos(0) and sin(0) are 1 and 0.
+    for(size_t i=0; i<offset; i++){
+      if(std::isnan(CX[i]) || std::isnan(SX[i])){
+        CX[i]=1;
+        SX[i]=0;
+      }
+    }
   }
   
   ///\brief Compute low-pass filter for pre-computed sine and cosine evaluations
